@@ -46,6 +46,10 @@ pub struct Dut {
     /// Module::stack builds a stack of its own elements and appends it as a whole (instead of element by element)
     #[serde(default)]
     pub append_at_once: bool,
+    /// Module::stack ignores the base stack it is given (the simulation-wide elements) and returns a stack of its own
+    /// elements only: exactly those are installed for this module
+    #[serde(default)]
+    pub replace_base: bool,
     /// on this message id the handler first sends a delayed message and then a burst of this many immediate ones
     /// (what an event buffers is neither sorted nor short)
     #[serde(default)]
@@ -162,6 +166,13 @@ struct DutModule {
 
 impl Module for DutModule {
     fn stack(&self, mut stack: ProcessingStack) -> ProcessingStack {
+        if self.dut.replace_base {
+            let mut own = ProcessingStack::default();
+            for (i, k) in self.dut.own.iter().enumerate() {
+                own.append(El { idx: i, kind: *k });
+            }
+            return own;
+        }
         if self.dut.append_at_once {
             let mut own = ProcessingStack::default();
             for (i, k) in self.dut.own.iter().enumerate() {
@@ -326,7 +337,8 @@ pub fn check(case: &Case, log: &[Entry], result: &Result<(), String>) -> (Vec<Fi
             continue;
         }
         let d = log[i].dut;
-        let k = case.global.len() + case.duts[d].own.len();
+        let glen = if case.duts[d].replace_base { 0 } else { case.global.len() };
+        let k = glen + case.duts[d].own.len();
         if log[i].hook == Hook::Reset {
             // reset is not a module event of its own (no bracket is stated for it)
             resets_seen[d] += 1;
@@ -381,7 +393,7 @@ pub fn check(case: &Case, log: &[Entry], result: &Result<(), String>) -> (Vec<Fi
                         f.push(fail(format!("element {} sees tags {:#x}, the elements before it returned {:#x}", e.idx, e.tags, tags_expected), j));
                         return (f, obs);
                     }
-                    let kind = if e.idx < case.global.len() { case.global[e.idx] } else { case.duts[d].own[e.idx - case.global.len()] };
+                    let kind = if e.idx < glen { case.global[e.idx] } else { case.duts[d].own[e.idx - glen] };
                     if kind == ElKind::Tag && e.passed {
                         tags_expected |= 1 << e.idx;
                     }
@@ -413,7 +425,7 @@ pub fn check(case: &Case, log: &[Entry], result: &Result<(), String>) -> (Vec<Fi
                 return (f, obs);
             }
             incoming_id = Some(e.id);
-            let kind = if e.idx < case.global.len() { case.global[e.idx] } else { case.duts[d].own[e.idx - case.global.len()] };
+            let kind = if e.idx < glen { case.global[e.idx] } else { case.duts[d].own[e.idx - glen] };
             if kind == ElKind::Tag && e.passed {
                 tags_expected |= 1 << e.idx;
             }
@@ -587,6 +599,7 @@ pub fn gen_case(rng: &mut Rng) -> Case {
                 handler_sends: rng.chance(1, 2),
                 end_err: rng.chance(1, 6),
                 append_at_once: rng.chance(1, 2),
+                replace_base: rng.chance(1, 6),
                 burst_on: if rng.chance(1, 6) { Some((rng.below(m as u64) as u16, 33 + rng.usize_below(30))) } else { None },
                 panic_on: if restart_on.is_none() && rng.chance(1, 6) { Some(rng.below(m as u64) as u16) } else { None },
             }
@@ -627,6 +640,9 @@ pub fn cmd(args: &Args) -> Report {
         rep.count("messages_sent_from_hooks_received", obs.probes);
         let k_max = case.duts.iter().map(|d| d.own.len() + case.global.len()).max().unwrap_or(0);
         rep.count(&format!("cases_with_stack_of_{k_max}"), 1);
+        if !case.global.is_empty() && case.duts.iter().any(|d| d.replace_base) {
+            rep.count("cases_with_a_module_that_replaces_the_global_stack", 1);
+        }
         if !case.global.is_empty() && case.duts.iter().any(|d| !d.own.is_empty()) {
             rep.count("cases_with_global_and_module_stack", 1);
         }
